@@ -204,6 +204,32 @@ class OptMonitor:
         pmain.is_repairable = gate
         self._undo.append(lambda: setattr(pmain, "is_repairable", orig_gate))
 
+        from pdb2pqr import aa as aa_
+
+        orig_his = aa_.HIS.set_state
+        mon.his = []
+
+        def his_set_state(self_):
+            rec = {"res": self_, "before": names(self_), "hip": ("HIP" in self_.patches) or self_.name in ("HIP", "HSP"), "raised": None}
+            try:
+                nd1, ne2 = self_.get_atom("ND1"), self_.get_atom("NE2")
+                rec["flags"] = (bool(nd1.hdonor), bool(nd1.hacceptor), bool(ne2.hdonor), bool(ne2.hacceptor))
+            except Exception:  # noqa: BLE001
+                rec["flags"] = None
+            try:
+                return orig_his(self_)
+            except Exception as e:  # noqa: BLE001
+                rec["raised"] = type(e).__name__
+                raise
+            finally:
+                rec["after"] = names(self_)
+                rec["ffname"] = self_.ffname
+                rec["n"], rec["c"] = bool(self_.is_n_term), bool(self_.is_c_term)
+                mon.his.append(rec)
+
+        aa_.HIS.set_state = his_set_state
+        self._undo.append(lambda: setattr(aa_.HIS, "set_state", orig_his))
+
         orig_remove = residue.Residue.remove_atom
 
         def remove_atom(self_, atomname):
@@ -371,9 +397,38 @@ def stages_tie(ctx: Ctx, drv: Driver, m: OptMonitor):
                     ctx.disagree("stage composition: deletion without report", {"residue": str(res)}, f"report for {n}", "none logged")
 
 
+def his_tie(ctx: Ctx, drv: Driver, m: OptMonitor):
+    """HIS.set_state: the atom it drops and the name it reads off the atoms vs the model (theorem his_state_clean)"""
+    recs = [r for r in getattr(m, "his", []) if r["flags"] is not None]
+    ans = drv.ask([f"atoms.his\t{encn(r['before'])}\t{b01(r['hip'])}\t" + "\t".join(b01(x) for x in r["flags"]) for r in recs])
+    for r, a in zip(recs, ans):
+        ctx.evaluations += 1
+        nm_s, _, name_h = a.partition("|")
+        got = decn(nm_s)
+        both = "HD1" in r["before"] and "HE2" in r["before"]
+        ctx.count("HIS.set_state", ("doubly protonated" if r["hip"] else "neutral") + (", both ring protons" if both else ", one ring proton" if ("HD1" in r["before"] or "HE2" in r["before"]) else ", no ring proton") + " flags=" + "".join(b01(x) for x in r["flags"]))
+        if name_h == "TypeError":
+            if r["raised"] is None:
+                ctx.disagree("HIS.set_state (error)", {"before": r["before"]}, "TypeError", r["ffname"])
+            continue
+        if r["raised"] is not None:
+            ctx.disagree("HIS.set_state (error)", {"before": r["before"]}, unhexs(name_h), r["raised"])
+            continue
+        if got != r["after"]:
+            ctx.disagree("HIS.set_state (atoms)", {"before": r["before"], "hip": r["hip"], "flags": r["flags"]}, got, r["after"])
+        base = r["ffname"] or ""
+        for pre in ("NEUTRAL-N", "NEUTRAL-C", "N", "C"):
+            if base.startswith(pre) and len(base) > len(pre) + 2 and ((pre.endswith("N") and r["n"]) or (pre.endswith("C") and r["c"])):
+                base = base[len(pre) :]
+                break
+        if base != unhexs(name_h):
+            ctx.disagree("HIS.set_state (state name)", {"before": r["before"], "after": r["after"]}, unhexs(name_h), r["ffname"])
+
+
 def trace_tie(ctx: Ctx, drv: Driver, m: OptMonitor):
     """replay every logged call in the model"""
     stages_tie(ctx, drv, m)
+    his_tie(ctx, drv, m)
     reqs = []
     recs = []
     for r in m.records:
